@@ -104,7 +104,9 @@ def body_doc(cells, convert, font_shift=0):
     """cells: list of strings laid out row-major in COLS columns"""
     rows = (len(cells) + COLS - 1) // COLS
     padded = cells + [""] * (rows * COLS - len(cells))
-    cols = [{"name": f"N{j}", "dtype": "str", "values": [padded[r * COLS + j] for r in range(rows)]}
+    # the same text whether the column is a String, a Categorical or an Enum column
+    cols = [{"name": f"N{j}", "dtype": ["str", "str", "cat", "enum"][(j + font_shift) % 4],
+             "values": [padded[r * COLS + j] for r in range(rows)]}
             for j in range(COLS)]
     # every font (the font table declares different charsets: 1, 161 Greek, 0, 2 Symbol) rotated over the columns
     fonts = [(font_shift + j) % 10 + 1 for j in range(COLS)]
